@@ -60,6 +60,7 @@ def step (l : Line) : Verdict :=
           | "none" => false
           | "dropattr" => (fld.map fun f => f.kind == "attr").getD false
           | "wrongkind" => true
+          | "syntax" => true
           | "unknownattr" => true
           | "dupblock" =>
             -- a block that may appear once (a pointer field)
